@@ -63,6 +63,28 @@ func numIsLessThan(x, y Value) bool {
 	return false
 }
 
+// numIsLessOrEqual returns true if x and y are numbers and x <= y.  In
+// particular it is false if x or y is NaN.
+func numIsLessOrEqual(x, y Value) bool {
+	switch x.iface.(type) {
+	case int64:
+		switch y.iface.(type) {
+		case int64:
+			return x.AsInt() <= y.AsInt()
+		case float64:
+			return leIntAndFloat(x.AsInt(), y.AsFloat())
+		}
+	case float64:
+		switch y.iface.(type) {
+		case int64:
+			return leFloatAndInt(x.AsFloat(), y.AsInt())
+		case float64:
+			return x.AsFloat() <= y.AsFloat()
+		}
+	}
+	return false
+}
+
 func isLessThan(x, y Value) (bool, bool) {
 	switch x.iface.(type) {
 	case int64:
